@@ -173,7 +173,13 @@ func runScript(sc script) {
 		}
 		if full {
 			f, s, r := cb.Counts()
-			emit(map[string]any{"ev": "st", "c": c.id, "at": msg, "state": stateName(cb.State()), "f": f, "s": s, "r": r})
+			// the model's program counter of this caller after the step, and its result once it is back
+			pcOf := map[string]string{"cb:read": "read", "cb:reset": "reset", "cb:tohalf": "tohalf", "cb:count": "count", "fn": "run", "cb:after": "after"}
+			pc, res := pcOf[msg], "none"
+			if len(msg) > 5 && msg[:5] == "done:" {
+				pc, res = "idle", msg[5:]
+			}
+			emit(map[string]any{"ev": "st", "c": c.id, "at": msg, "pc": pc, "res": res, "state": stateName(cb.State()), "f": f, "s": s, "r": r})
 		}
 	}
 
@@ -197,7 +203,7 @@ func runScript(sc script) {
 			c := &caller{id: st.C, resume: make(chan struct{}), parked: make(chan string, 1), outcome: st.O}
 			callers[st.C] = c
 			running = c
-			emit(map[string]any{"ev": "call", "c": c.id})
+			emit(map[string]any{"ev": "call", "c": c.id, "o": c.outcome})
 			go func() {
 				res := "?"
 				ran := false
